@@ -148,6 +148,10 @@ func (r *Reader) Read(p []byte) (n int, err error) {
 func (r *Reader) Discard() (err error) {
 	for {
 		_, err = io.Copy(ioutil.Discard, &r.raw)
+		if err == nil && r.raw.N != 0 {
+			// Source ended in the middle of the frame payload.
+			err = io.ErrUnexpectedEOF
+		}
 		if err != nil {
 			break
 		}
